@@ -41,7 +41,8 @@ impl ErrorType {
                     parser
                         .err(
                             "Callback has been already set",
-                            span.join(name.span()).unwrap(),
+                            // `Span::join` is `None` outside of nightly proc-macro contexts
+                            span.join(name.span()).unwrap_or(span),
                         )
                         .err("Previous callback set here", previous.span());
                 }
